@@ -88,6 +88,7 @@ func RoutingFile(baseIdx int, sub, pkg, goImport, goName string, lit *int, full 
 	var cases []*RouteCase
 	nameIdx := 0
 	litOverride := "" // a literal shared by several methods (same path, different verbs)
+	var declOrder []string
 	add := func(cfg, verb, shapeLabel string, tmpl string, vars []string, hasVerb bool, leadingSlash bool) {
 		*lit++
 		k := *lit
@@ -104,7 +105,11 @@ func RoutingFile(baseIdx int, sub, pkg, goImport, goName string, lit *int, full 
 		bodyVerb := effVerb == "POST" || effVerb == "PUT" || effVerb == "PATCH"
 		req := &spec.Message{Name: mname + "Req"}
 		num := int32(1)
-		for _, v := range vars {
+		declared := vars
+		if declOrder != nil {
+			declared = declOrder // the message declares the path-bound fields in another order than the path names them
+		}
+		for _, v := range declared {
 			t := spec.String
 			if v == "num" {
 				t = spec.Int32
@@ -216,6 +221,14 @@ func RoutingFile(baseIdx int, sub, pkg, goImport, goName string, lit *int, full 
 		add("shared", "DELETE", "same-shape-var-b", "/%s/{user_id}", []string{"user_id"}, true, true)
 		add("shared", "PUT", "same-shape-var-c", "/%s/{num}", []string{"num"}, true, true)
 		litOverride = ""
+		// path variables named in another order than the request message declares the fields
+		declOrder = []string{"id", "user_id"}
+		add("shared", "GET", "2var-declared-in-reverse", "/%s/{user_id}/items/{id}", []string{"user_id", "id"}, true, true)
+		add("shared", "PUT", "2var-declared-in-reverse", "/%s/{user_id}/items/{id}", []string{"user_id", "id"}, true, true)
+		declOrder = []string{"post_id", "id", "user_id"}
+		add("shared", "DELETE", "3var-declared-rotated", "/%s/{user_id}/p/{post_id}/c/{id}", []string{"user_id", "post_id", "id"}, true, true)
+		add("shared", "PATCH", "3var-declared-rotated", "/%s/{user_id}/p/{post_id}/c/{id}", []string{"user_id", "post_id", "id"}, true, true)
+		declOrder = nil
 	case "bodyquery":
 		// body verbs with query-annotated fields (generators place them differently)
 		for _, v := range []string{"POST", "PUT", "PATCH"} {
